@@ -215,14 +215,9 @@ Theorem swap_exact_gen len k : wf_kernel k = true -> (len = true \/ no_junk (k_m
   = Val (spec_swap k).
 Proof. intros Hwf HL. rewrite (swap_general len (k_pagesize k) k Hwf HL). destruct k; reflexivity. Qed.
 
-(* the code as it is now (commit fe3ce75 multiplies by the page size) *)
-Theorem swap_exact k : wf_kernel k = true -> no_junk (k_mem k) = true ->
+(* the code as it is now (fe3ce75: page size; db3d5fc: lenient meminfo parser) *)
+Theorem swap_exact k : wf_kernel k = true ->
   swap_memory (k_pagesize k) (k_meminfo (k_mem k)) (k_sysinfo k) (option_map k_vmstat (k_vm k))
-  = Val (spec_swap k).
-Proof. intros Hwf Hj. apply (swap_exact_gen false); auto. Qed.
-
-Theorem swap_exact_lenient k : wf_kernel k = true ->
-  swap_memory_gen true (k_pagesize k) (k_meminfo (k_mem k)) (k_sysinfo k) (option_map k_vmstat (k_vm k))
   = Val (spec_swap k).
 Proof. intros Hwf. apply (swap_exact_gen true); auto. Qed.
 
@@ -258,7 +253,7 @@ Proof.
 Qed.
 
 (* whichever of vmstat / the two counters is missing: the call succeeds, sin = sout = 0, warning *)
-Theorem swap_missing_counters k r : wf_kernel k = true -> no_junk (k_mem k) = true ->
+Theorem swap_missing_counters k r : wf_kernel k = true ->
   swap_memory (k_pagesize k) (k_meminfo (k_mem k)) (k_sysinfo k) (option_map k_vmstat (k_vm k)) = Val r ->
   (k_vm k = None \/
    (exists vs, k_vm k = Some vs /\ nodupb (vnames vs) = true /\
@@ -266,7 +261,7 @@ Theorem swap_missing_counters k r : wf_kernel k = true -> no_junk (k_mem k) = tr
   s_sin r = 0 /\ s_sout r = 0 /\ s_warned r = true /\
   s_total r = sw_total k /\ s_free r = sw_free k /\ s_used r = sw_total k - sw_free k.
 Proof.
-  intros Hwf Hj Hr H. rewrite (swap_exact k Hwf Hj) in Hr. injection Hr as <-.
+  intros Hwf Hr H. rewrite (swap_exact k Hwf) in Hr. injection Hr as <-.
   unfold spec_swap, sw_io, sw_used. destruct H as [-> | [vs [-> [Hn [E|E]]]]].
   - cbn [s_sin s_sout s_warned s_total s_free s_used]. repeat split; reflexivity.
   - rewrite (sw_scan_distinct vs Hn), E. cbn [both s_sin s_sout s_warned s_total s_free s_used]. repeat split; reflexivity.
@@ -275,13 +270,13 @@ Proof.
 Qed.
 
 (* the ordinary case, spelled out: distinct names, both counters present *)
-Theorem swap_counters_distinct k vs i o : wf_kernel k = true -> no_junk (k_mem k) = true ->
+Theorem swap_counters_distinct k vs i o : wf_kernel k = true ->
   k_vm k = Some vs -> nodupb (vnames vs) = true ->
   vfind (bs "pswpin") vs = Some i -> vfind (bs "pswpout") vs = Some o ->
   exists r, swap_memory (k_pagesize k) (k_meminfo (k_mem k)) (k_sysinfo k) (option_map k_vmstat (k_vm k)) = Val r /\
             s_sin r = i * k_pagesize k /\ s_sout r = o * k_pagesize k /\ s_warned r = false.
 Proof.
-  intros Hwf Hj Hv Hn Hi Ho. eexists. split; [apply (swap_exact k Hwf Hj)|].
+  intros Hwf Hv Hn Hi Ho. eexists. split; [apply (swap_exact k Hwf)|].
   unfold spec_swap, sw_io. rewrite Hv, (sw_scan_distinct vs Hn), Hi, Ho. cbn. auto.
 Qed.
 
